@@ -63,6 +63,10 @@ def make_pool(s, rng, with_unknown=False):
     """Standard list for one scenario: reflects per port, double reflects / throughs / lines per pair,
     full-matrix standards."""
     P = s.P
+    # parameters that are created but never used (another cal kit): they shift the handles of the
+    # parameters used below over the growth points 8, 16, 32 of the per-calibration parameter hash
+    for _ in range(rng.choice([0, 0, 1, 2, 5, 5, 7, 13, 13, 21, 29])):
+        s.new_slot(QI(Fraction(rng.randint(1, 9), 11), Fraction(rng.randint(1, 9), 13)))
     g1 = s.new_slot(QI(Fraction(3, 10), Fraction(2, 5)))
     g2 = s.new_slot(QI(Fraction(-1, 5), Fraction(1, 2)))
     tl = s.new_slot(QI(Fraction(1, 2), Fraction(-1, 3)))
@@ -81,6 +85,15 @@ def make_pool(s, rng, with_unknown=False):
             pool.append(sc.Standard("ln", [q, p], [[cell(g1), cell(tl)], [cell(1), cell(g2)]], "net@%d%d" % (q, p)))
             pool.append(sc.Standard("r2", [p, q], [[cell(2), cell(0)], [cell(0), cell(1)]], "so@%d%d" % (p, q)))
             pool.append(sc.Standard("r2", [q, p], [[cell(0), cell(0)], [cell(0), cell(g2)]], "mg@%d%d" % (q, p)))
+    # reflect-only standards described as complete matrices with explicit zero off-diagonal handles
+    for p in range(1, P + 1):
+        for q in range(p + 1, P + 1):
+            pool.append(sc.Standard("ln", [p, q], [[cell(2), cell(0)], [cell(0), cell(g1)]], "sg0@%d%d" % (p, q)))
+    if P > 1:
+        ports = list(range(1, P + 1))
+        pool.append(sc.Standard("mm", ports, [[cell(0) for _ in range(P)] for _ in range(P)], "allmatch"))
+        diag = [2, 1, g2]
+        pool.append(sc.Standard("mm", ports, [[cell(diag[a] if a == b else 0) for b in range(P)] for a in range(P)], "diagm"))
     # full-matrix standards on all ports, mapped in a (possibly permuted) order
     for v in range(2 if P > 1 else 1):
         ports = list(range(1, P + 1))
@@ -419,6 +432,7 @@ def evaluate(ctx, s, recs, cout, mout, stats, use_model):
                     ctx.count(None)
             else:
                 ctx.count(None)
+            final["verdict"] = verdict
             rec["verdict"] = verdict
             s.last_verdict = verdict
             s.last_ok = ok
@@ -941,7 +955,8 @@ def run(ctx):
         base = lst[0][1]
         for s, f in lst[1:]:
             ctx.count(None)
-            if f["counts"] != base["counts"] or f["deficient"] != base["deficient"] or f["ok"] != base["ok"]:
+            constrained = f.get("verdict") in ("edom", "solve") or base.get("verdict") in ("edom", "solve")
+            if f["counts"] != base["counts"] or f["deficient"] != base["deficient"] or (constrained and f["ok"] != base["ok"]):
                 order_bad += 1
                 if order_bad <= 2:
                     ctx.violation({"kind": "disagreement", "op": "vnacal_new_solve", "class": "order of standards"},
